@@ -224,7 +224,12 @@ def axiom_audit(ctx, ns_module, namespace):
             pass
     thms = []
     bad = []
+    ctx.stmts = {}
     for line in p.stdout.splitlines():
+        ms = re.match(r'.*STMT (\S+) (\d+) (GEN|-)\s*$', line)
+        if ms:
+            ctx.stmts[ms.group(1)] = (ms.group(2), ms.group(3))
+            continue
         m = re.match(r'.*AXIOMS (\S+) :\s*(.*)$', line)
         if m:
             axs = set(m.group(2).split())
@@ -286,7 +291,10 @@ def load_known():
 
 def write_replay(ctx, payload, tag):
     os.makedirs(REPLAYS, exist_ok=True)
-    path = os.path.join(REPLAYS, '%s-%s-seed%d-%s.json' % (ctx.prop, ctx.tier, ctx.seed, tag))
+    # runs against a copy of the repository (TAMOC_REPO) keep their replays apart from those of /repo
+    d = REPLAYS if os.path.realpath(REPO) == '/repo' else os.path.join(REPLAYS, 'copies', re.sub(r'[^A-Za-z0-9_.-]', '_', REPO.strip('/')))
+    os.makedirs(d, exist_ok=True)
+    path = os.path.join(d, '%s-%s-seed%d-%s.json' % (ctx.prop, ctx.tier, ctx.seed, tag))
     with open(path, 'w') as f:
         json.dump(payload, f, indent=1, default=str)
     return path
@@ -347,6 +355,7 @@ def finish(ctx, rule, level_note, checker_cmd, extra=None, exhaustive=False):
         'tolerances': TOL,
         'exhaustive': bool(exhaustive),
         'known_findings_seen': [k['key'] for k in hit.values()],
+        'known_findings_hits': {k: sum(1 for v in ctx.violations if v['key'] == k) for k in hit},
         'notes': ctx.notes,
     }
     if extra:
@@ -368,7 +377,8 @@ def finish(ctx, rule, level_note, checker_cmd, extra=None, exhaustive=False):
     path = os.path.join(evdir, ctx.prop + '.json')
     with open(path, 'w') as f:
         json.dump(ev, f, indent=1, default=str)
-    validate_evidence(path)
+    if not validate_evidence(path) and rc == 0:
+        rc = 2          # an evidence file that does not meet the schema is an infrastructure failure of the check
     print('%s tier=%s seed=%d obligations=%d discharged=%d evaluations=%d nontrivial=%d violations=%d wall=%.1fs'
           % (ctx.prop, ctx.tier, ctx.seed, nob, ndis, ctx.evaluations, len(ctx.nontrivial), nviol, ev['wall_s']))
     return rc
@@ -378,9 +388,12 @@ def validate_evidence(path):
     vt = shutil.which('python3-vt')
     schema = '/root/.vp/EVIDENCE.schema.json'
     if not vt or not os.path.exists(schema):
-        return
+        return True
     code = ("import json,sys,jsonschema; s=json.load(open(%r)); e=json.load(open(%r)); "
             "jsonschema.validate(e,s)" % (schema, path))
     p = subprocess.run([vt, '-c', code], stdout=subprocess.PIPE, stderr=subprocess.STDOUT, text=True)
     if p.returncode != 0:
         sys.stderr.write('EVIDENCE-INVALID %s\n%s\n' % (path, p.stdout[-500:]))
+        print('EVIDENCE-INVALID %s' % path)
+        return False
+    return True
